@@ -51,6 +51,7 @@ def st_poison(draw):
         where = 'NR != %d' % ks[0]
     expected_k = ks[1] if hide_first else ks[0]
     field = None
+    fam = 'int'
     if clause in ('update-target', 'join-a'):
         for k in ks:
             A[k - 1] = A[k - 1][:2]      # a3 is missing
@@ -66,8 +67,10 @@ def st_poison(draw):
         for k in ks:
             A[k - 1][2] = None
     else:
+        # what the offending evaluation raises: ValueError (int of a non-number), UnicodeError (encode of a non-ASCII value), OSError (stat of a missing path)
+        fam = draw(st.sampled_from(['int', 'int', 'ascii', 'oserror']))
         for k in ks:
-            A[k - 1][1] = draw(st.sampled_from(['POISON', '', '1x', 'None']))
+            A[k - 1][1] = draw(st.sampled_from({'int': ['POISON', '', '1x', 'None'], 'ascii': ['\xe9', '1\xe9', '\u20ac5'], 'oserror': ['POISON']}[fam]))
     kw = lambda s: draw(st.sampled_from([s, s.lower(), s.capitalize()]))
     sel, upd = kw('SELECT'), kw('UPDATE')
     if clause == 'select':
@@ -99,6 +102,8 @@ def st_poison(draw):
         q = "%s a1 %s like(a3, 'x%%')" % (sel, kw('WHERE'))
     else:
         q = '%s a1, UNNEST(range(int(a2)))' % sel
+    if clause not in ('update-target', 'join-a', 'join-b', 'like-none', 'aggarg-text') and fam != 'int':
+        q = q.replace('int(a2)', {'ascii': "int(a2.encode('ascii'))", 'oserror': "(os.stat('/nonexistent-dir-' + a2).st_size if a2 == 'POISON' else int(a2))"}[fam])
     if where and 'WHERE' not in q.upper():
         q += ' where ' + where
     return {'kind': 'poison', 'clause': clause, 'A': A, 'B': B if clause.startswith('join') else None, 'query': q, 'expected_k': expected_k, 'field': field, 'ks': ks}
